@@ -33,4 +33,33 @@ Definition case_lines (u : string * ty) : list string :=
      else []))%list)
   (combine (seqn (List.length (variants n))) (variants n)).
 
-Definition cases (tier : Z) (seed : Z) : list string := flat_map case_lines (emit_units tier).
+(* the argument-form matrix (GenDeq.v): every combination of (T, *T, **T) x (T, *T, **T), both orders, on
+   (a, a itself) and (a, independent copy) of the richest variant, and on the first mutation of every kind
+   (scalar, string, bytes, f10, f01, key+, key-, keyren, len+, len-, ptrnil, ptrset, nilempty) the unit has,
+   looking through its variants in order *)
+Definition matrix_lines (u : string * ty) : list string :=
+  let n := root_node u in
+  let pk := if has_ptrkey n then ",ptrkey" else "" in
+  let vs := combine (seqn (List.length (variants n))) (variants n) in
+  let r := richest n vs in
+  List.app
+  (flat_map (fun iv : nat * val =>
+     let '(vi, a) := iv in
+     if Nat.eqb vi r then
+       let base := fst u ++ "." ++ nat_to_string vi ++ ".fm" in
+       let d_same := c05_spec true n a a in
+       let d_copy := c05_spec false n a a in
+       [ deqm_line (base ++ ".same") ("formmatrix,same," ++ demand_tag d_same ++ pk) (fst u) n false None true a a d_same;
+         deqm_line (base ++ ".copy") ("formmatrix,copy," ++ demand_tag d_copy ++ pk) (fst u) n false None false a a d_copy ]
+     else []) vs)
+  (map (fun x : (nat * val) * (nat * mutn) =>
+     let '((vi, a), (j, (t, fp, b))) := x in
+     let d := c05_spec false n a b in
+     deqm_line (fst u ++ "." ++ nat_to_string vi ++ ".fm.m" ++ nat_to_string j)
+               ("formmatrix,mut," ++ t ++ "," ++ demand_tag d ++ pk) (fst u) n false None false a b d)
+     (first_of_tag (fun x : (nat * val) * (nat * mutn) => fst (fst (snd (snd x)))) []
+        (flat_map (fun iv : nat * val =>
+           map (fun jm => (iv, jm)) (combine (seqn (List.length (muts n (snd iv)))) (muts n (snd iv)))) vs))).
+
+Definition cases (tier : Z) (seed : Z) : list string :=
+  (flat_map case_lines (emit_units tier) ++ flat_map matrix_lines (emit_units tier))%list.
